@@ -40,6 +40,22 @@ func hostileClasses(v *smt.Term) map[string]*smt.Term {
 	return m
 }
 
+// crudeClasses: plain substring versions of the two context-sensitive
+// classes (stronger: any occurrence counts). Used where the value passes
+// through regexp.ReplaceAll, whose model only preserves substrings.
+func crudeClasses(v *smt.Term) map[string]*smt.Term {
+	m := map[string]*smt.Term{}
+	for _, f := range []string{"<", ">", "\\", "@", "expression(", "javascript:", "data:", "url("} {
+		m["contains "+f] = smt.Contains(v, smt.StrC(f))
+	}
+	return m
+}
+
+// crudeHandlers are judged against the substring classes: the two handlers
+// that strip function names with ReplaceAll and the leaf handlers they hand
+// the remainder to.
+var crudeHandlers = map[string]bool{"TransformHandler": true, "FilterHandler": true, "LengthHandler": true, "ColorHandler": true}
+
 func hostileTerm(v *smt.Term) *smt.Term {
 	var ds []*smt.Term
 	for _, t := range hostileClasses(v) {
@@ -162,6 +178,21 @@ func runC18(c *Ctx, ev *Evidence) ([]Violation, error) {
 	if !enumOK {
 		c.Log("enum summary not established; enum handlers are executed through the real split")
 	}
+	var dist map[string]bool
+	{
+		din, err := c.NewInterp(sym.Config{})
+		if err == nil {
+			dist = c.proveDistribution(ev, din, timeout)
+			din.Close()
+			n := 0
+			for _, v := range dist {
+				if v {
+					n++
+				}
+			}
+			ev.Bound("distribution_lemmas", fmt.Sprintf("%d of %d proved (class x separator / join position, arbitrary strings)", n, len(dist)))
+		}
+	}
 	var mu sync.Mutex
 	var viols []Violation
 	seen := map[string]bool{}
@@ -171,6 +202,10 @@ func runC18(c *Ctx, ev *Evidence) ([]Violation, error) {
 	only := os.Getenv("BMSYM_ONLY")
 	for _, h := range handlers {
 		if only != "" && !strings.Contains(","+only+",", ","+h.Name+",") {
+			continue
+		}
+		if c18NotDecided[h.Name] && only == "" {
+			ev.Outside(h.Name + " (" + strings.Join(h.Props, ",") + "): not claimed - its accepting paths go through regexp.ReplaceAll and a comma split of the remainder, and the solvers do not decide them within the time limit")
 			continue
 		}
 		wg.Add(1)
@@ -263,12 +298,20 @@ func runC18(c *Ctx, ev *Evidence) ([]Violation, error) {
 				smt.Walk(smt.And(acc...), func(x *smt.Term) {
 					if x.Op == "uf" && strings.HasPrefix(x.Name, "J.") {
 						lemmas = append(lemmas, smt.Implies(x, smt.Not(hostileTerm(x.Args[0]))))
+						if crudeHandlers[strings.TrimPrefix(x.Name, "J.")] {
+							for _, ct := range crudeClasses(x.Args[0]) {
+								lemmas = append(lemmas, smt.Implies(x, smt.Not(ct)))
+							}
+						}
 					}
 				})
 				var r smt.Result
 				name := fmt.Sprintf("C18-%s-p%d", h.Name, st.ID)
 				{
 					classes := hostileClasses(v)
+					if crudeHandlers[h.Name] {
+						classes = crudeClasses(v)
+					}
 					var cn []string
 					for k := range classes {
 						cn = append(cn, k)
@@ -285,6 +328,17 @@ func runC18(c *Ctx, ev *Evidence) ([]Violation, error) {
 								for i := 0; i < 2; i++ {
 									if cj.Args[i].Op == "var" && cj.Args[1-i].Op == "str.++" {
 										eqs[cj.Args[i]] = cj.Args[1-i]
+									}
+								}
+								// a split into one part: x = p with p the fresh part
+								a0, a1 := cj.Args[0], cj.Args[1]
+								if a0.Op == "var" && a1.Op == "var" {
+									f0, f1 := strings.HasPrefix(a0.Name, "sp"), strings.HasPrefix(a1.Name, "sp")
+									switch {
+									case f1 && (!f0 || a1.ID() > a0.ID()):
+										eqs[a0] = a1
+									case f0:
+										eqs[a1] = a0
 									}
 								}
 							}
@@ -305,6 +359,11 @@ func runC18(c *Ctx, ev *Evidence) ([]Violation, error) {
 						xl = append(xl, expand(l))
 					}
 					for ci, k := range cn {
+						if refuteByDistribution(in, dist, k, v, append(append([]*smt.Term{}, acc...), hostileClassRaw(k, v)), eqs) {
+							results[ci] = smt.Result{Status: smt.Unsat, Solver: "distribution-lemmas"}
+							ev.Query(name+"-"+k+"-distribution", results[ci])
+							continue
+						}
 						as := append(append([]*smt.Term{}, acc...), expand(classes[k]))
 						as = append(as, xl...)
 						as = sym.ProjectDecomps(as)
@@ -660,4 +719,180 @@ func (c *Ctx) proveEnumSummary(ev *Evidence, timeout time.Duration) (bool, error
 	}
 	ev.Func(cssPkg + ".splitValues and css.in [the idiom in(splitValues(v), consts) proven equal to a regular language for <=3 parts, then summarised for any number of parts]")
 	return true, nil
+}
+
+// ---- distribution of hostile classes over separated parts -----------------------
+//
+// For composite handlers the value is split at " ", "/", " / " or "," and the
+// sub-handlers see parts or single-space joins of parts. For each hostile
+// class C and separator s the solver proves, once per run and for arbitrary
+// strings,   C(a·s·b) => C(a) or C(b)   and   C(p) => C(a· ·p· ·b) (with the
+// obvious variants at the ends). With these, "C(v) and no accepted group is
+// hostile" is refuted propositionally.
+
+// c18NotDecided lists handlers whose queries do not finish at the registered
+// bounds; they are reported as outside the claim, not as passed.
+var c18NotDecided = map[string]bool{"TransformHandler": true}
+
+var c18Separators = []string{" ", "/", " / ", ","}
+
+func (c *Ctx) proveDistribution(ev *Evidence, in *sym.Interp, timeout time.Duration) map[string]bool {
+	ok := map[string]bool{}
+	a, b, p := smt.Var("dist.a", smt.String), smt.Var("dist.b", smt.String), smt.Var("dist.p", smt.String)
+	type job struct {
+		key string
+		f   *smt.Term
+	}
+	var jobs []job
+	classesOf := func(x *smt.Term) map[string]*smt.Term { return hostileClasses(x) }
+	for name := range classesOf(a) {
+		for _, s := range c18Separators {
+			whole := smt.App("str.++", smt.String, a, smt.StrC(s), b)
+			jobs = append(jobs, job{name + "|split|" + s, smt.And(hostileClassRaw(name, whole), smt.Not(classesOf(a)[name]), smt.Not(classesOf(b)[name]))})
+		}
+		for i, t := range []*smt.Term{
+			smt.App("str.++", smt.String, a, smt.StrC(" "), p, smt.StrC(" "), b),
+			smt.App("str.++", smt.String, p, smt.StrC(" "), b),
+			smt.App("str.++", smt.String, a, smt.StrC(" "), p),
+		} {
+			jobs = append(jobs, job{fmt.Sprintf("%s|join|%d", name, i), smt.And(classesOf(p)[name], smt.Not(hostileClassRaw(name, t)))})
+		}
+	}
+	res := make([]smt.Result, len(jobs))
+	var wg sync.WaitGroup
+	for i, j := range jobs {
+		wg.Add(1)
+		go func(i int, j job) {
+			defer wg.Done()
+			as := []*smt.Term{j.f, smt.ASCII(a), smt.ASCII(b), smt.ASCII(p)}
+			in.WithWorker(func(w *smt.Worker) {
+				res[i] = w.Check(&smt.Query{Name: "C18-dist-" + j.key, Asserts: as, Timeout: timeout, Both: true, Grace: 2 * time.Second})
+			})
+			ev.Query("C18-dist-"+j.key, res[i])
+			ev.AddTransitions(1)
+		}(i, j)
+	}
+	wg.Wait()
+	for i, j := range jobs {
+		ok[j.key] = res[i].Status == smt.Unsat
+		if res[i].Status != smt.Unsat {
+			c.Log("distribution lemma %s not established (%s)", j.key, res[i].Status)
+		}
+	}
+	return ok
+}
+
+// hostileClassRaw builds the class predicate on a term without the
+// Contains-distribution rewriting (so that the lemma is about the real
+// predicate).
+func hostileClassRaw(name string, v *smt.Term) *smt.Term {
+	if strings.HasPrefix(name, "contains ") {
+		return smt.App("str.contains", smt.Bool, v, smt.StrC(strings.TrimPrefix(name, "contains ")))
+	}
+	return hostileClasses(v)[name]
+}
+
+// refuteByDistribution tries to refute "path accepts and C(v)" using only the
+// established distribution lemmas and the sub-handler lemma instances.
+func refuteByDistribution(in *sym.Interp, dist map[string]bool, class string, v *smt.Term, acc []*smt.Term, eqs map[*smt.Term]*smt.Term) bool {
+	if len(eqs) == 0 || dist == nil {
+		return false
+	}
+	// finest decomposition of v
+	t := v
+	for d := 0; d < 4; d++ {
+		n := smt.Subst(t, eqs)
+		if n == t {
+			break
+		}
+		t = n
+	}
+	if t.Op != "str.++" {
+		return false
+	}
+	var parts []*smt.Term
+	prevVar := false
+	for _, x := range t.Args {
+		if x.IsConst() {
+			sepOK := false
+			for _, s := range c18Separators {
+				if x.S == s && dist[class+"|split|"+s] {
+					sepOK = true
+				}
+			}
+			if !sepOK {
+				return false
+			}
+			prevVar = false
+		} else {
+			if prevVar {
+				return false
+			}
+			parts = append(parts, x)
+			prevVar = true
+		}
+	}
+	for i := 0; i < 3; i++ {
+		if !dist[fmt.Sprintf("%s|join|%d", class, i)] {
+			return false
+		}
+	}
+	isPart := map[*smt.Term]bool{}
+	for _, p := range parts {
+		isPart[p] = true
+	}
+	// propositional abstraction
+	atom := func(x *smt.Term) *smt.Term { return smt.UF("C?", smt.Bool, x) }
+	var fs []*smt.Term
+	var ds []*smt.Term
+	for _, p := range parts {
+		ds = append(ds, atom(p))
+	}
+	fs = append(fs, smt.Or(ds...)) // C(v) => some part
+	okShape := true
+	full := smt.And(acc...)
+	smt.Walk(full, func(x *smt.Term) {
+		if x.Op != "uf" || !strings.HasPrefix(x.Name, "J.") {
+			return
+		}
+		arg := x.Args[0]
+		var inside []*smt.Term
+		switch {
+		case isPart[arg]:
+			inside = []*smt.Term{arg}
+		case arg.Op == "str.++":
+			for i, y := range arg.Args {
+				if i%2 == 0 {
+					if !isPart[y] {
+						okShape = false
+					}
+					inside = append(inside, y)
+				} else if !(y.IsConst() && y.S == " ") {
+					okShape = false
+				}
+			}
+		default:
+			okShape = false
+		}
+		// lemma: J(t) => not C(t); and C(p) => C(t) for the parts of t
+		fs = append(fs, smt.Implies(x, smt.Not(atom(arg))))
+		for _, p := range inside {
+			if p != arg {
+				fs = append(fs, smt.Implies(atom(p), atom(arg)))
+			}
+		}
+	})
+	if !okShape {
+		return false
+	}
+	// propositional skeleton of the path condition: keep it as is (J atoms are UF booleans)
+	q := smt.And(append(append([]*smt.Term{}, acc...), fs...)...)
+	if q.IsFalse() {
+		return true
+	}
+	var r smt.Result
+	in.WithWorker(func(w *smt.Worker) {
+		r = w.Check(&smt.Query{Name: "C18-distribution-refutation", Asserts: append([]*smt.Term{q}, sym.SideConditions([]*smt.Term{q})...), Timeout: 8 * time.Second, Both: true, Grace: 300 * time.Millisecond})
+	})
+	return r.Status == smt.Unsat
 }
